@@ -425,7 +425,43 @@ def gen_stages():
     return {"xforms": xforms, "rules": rules}
 
 
-GENERATORS = [("GenPipeline", gen_pipeline), ("GenTopo", gen_topo), ("GenStages", gen_stages), ("GenTokens", gen_tokens), ("GenLegend", gen_legend), ("GenDecoders", gen_decoders)]
+# ------------------------------------------------------------------------------------------
+# panic-capable constructs in the input-reachable files -> GenPanicSites.v
+# ------------------------------------------------------------------------------------------
+PANIC_FILES = ["compiler/parser/src/parser.rs", "compiler/parser/src/lexer.rs", "compiler/parser/src/lib.rs",
+               "compiler/parser/src/preprocessor.rs", "compiler/parser/src/xform_tokens.rs", "compiler/parser/src/vars.rs",
+               "compiler/parser/src/xform_assign_file_id.rs", "compiler/dsl/src/common.rs", "compiler/dsl/src/time.rs",
+               "compiler/dsl/src/core.rs", "compiler/analyzer/src/rule_decl_subrange_limits.rs",
+               "compiler/analyzer/src/xform_toposort_declarations.rs", "compiler/analyzer/src/stages.rs",
+               "compiler/plc2plc/src/renderer.rs", "compiler/plc2plc/src/lib.rs", "compiler/plc2x/src/source.rs",
+               "compiler/plc2x/src/cli.rs", "compiler/plc2x/src/project.rs"]
+PANIC_RE = re.compile(r"(panic!|todo!|unimplemented!|unreachable!|\.unwrap\(\)|\.expect\()")
+
+
+def gen_panic_sites():
+    rows = []
+    for f in PANIC_FILES:
+        src = read(f).split("#[cfg(test)]")[0]
+        fn = "-"
+        for line in src.split("\n"):
+            m = re.match(r"\s*(?:pub(?:\([a-z]+\))?\s+)?(?:rule|fn)\s+(\w+)", line)
+            if m:
+                fn = m.group(1)
+            st = line.strip()
+            if st.startswith("//"):
+                continue
+            for k in PANIC_RE.findall(line):
+                rows.append((f.split("/", 1)[1], fn, k.strip(".(")))
+    o = ["(* GENERATED by tools/translate.py: panic-capable constructs (panic! todo! unimplemented! unreachable! unwrap expect)",
+         "   outside #[cfg(test)] in the files an input can reach -- do not edit *)",
+         "From Coq Require Import List String.", "Import ListNotations.", "Local Open Scope string_scope.", "",
+         "Definition panic_sites : list (string * string * string) :=",
+         "  [" + ";\n   ".join("(%s, %s, %s)" % (coq_string(a), coq_string(b), coq_string(c)) for a, b, c in rows) + "].", ""]
+    write_if_changed("GenPanicSites.v", "\n".join(o) + "\n")
+    return {"sites": len(rows)}
+
+
+GENERATORS = [("GenPanicSites", gen_panic_sites), ("GenPipeline", gen_pipeline), ("GenTopo", gen_topo), ("GenStages", gen_stages), ("GenTokens", gen_tokens), ("GenLegend", gen_legend), ("GenDecoders", gen_decoders)]
 
 
 def main():
